@@ -14,6 +14,12 @@ const VALID: &[&str] = &[
     "# comment\n@export A = 'a' | 'b';\n",
     "@export A = 'a';\n\n",
     "@export @position A = [f:char] $;\n",
+    // the next three differ only in whitespace inside a literal (different languages, nearly equal texts)
+    "@export A = 'a b';\n",
+    "@export A = 'a  b';\n",
+    "@export A = 'a\tb';\n",
+    // and these two only in layout outside literals (same code, different text)
+    "@export   A='a b'  ;",
 ];
 const INVALID: &[&str] = &["@export A = 'a'", "@export A = ;;", "@export A = @:B;\nB = 'b';\n", "@export A = !(x:B);\nB = 'b';\n", "Whitespace = ' ';\n", ""];
 /// prefixes: several are prefixes of each other; the last one is rewritten by rustfmt
@@ -50,11 +56,22 @@ pub fn build(bytes: &[u8]) -> History {
     for i in 1..nfiles {
         ops.push(Op::EditValid(i, src.pick(VALID.len())));
     }
+    let mut last_valid = vec![0usize; nfiles];
+    for (i, op) in ops.iter().enumerate() {
+        if let Op::EditValid(_, k) = op {
+            last_valid[i.min(nfiles - 1)] = *k;
+        }
+    }
     for _ in 0..n {
         let f = src.pick(nfiles);
         ops.push(match src.weighted(&[10, 4, 3, 2, 5, 2, 1]) {
             0 => Op::Run,
-            1 => Op::EditValid(f, src.pick(VALID.len())),
+            1 => {
+                // often a neighbouring text: neighbours in the pool differ minimally (whitespace only)
+                let k = if src.chance(110) { (last_valid[f] + 1 + src.pick(2) * (VALID.len() - 2)) % VALID.len() } else { src.pick(VALID.len()) };
+                last_valid[f] = k;
+                Op::EditValid(f, k)
+            }
             2 => Op::EditInvalid(f, src.pick(INVALID.len())),
             3 => Op::EditSame(f),
             4 => Op::SetPrefix(src.pick(PREFIXES.len())),
